@@ -44,6 +44,10 @@ func checkC07(c *Ctx, r *Report) {
 	c07RdataErrorRebuild(c, r, "C07.R5.error-position")
 	c07FalseIsEOF(c, r, "C07.R3.sticky")
 	parseNarrowing(c, r, "C07.R3.parse-narrowing")
+	r.rule("C07.R3.sub-error", 1, "subNext detaches the sub-parser only where its error is nil")
+	subErrorSurfaces(c, r, "C07.R3.sub-error")
+	r.rule("C07.R3.unterminated-quote", 1, "endingToTxtSlice returns strings only with the quote flag false")
+	unterminatedQuote(c, r, "C07.R3.unterminated-quote")
 }
 
 var fileOpeners = map[string]bool{"os.Open": true, "os.OpenFile": true, "os.ReadFile": true, "os.Create": true, "fs.ReadFile": true, "ioutil.ReadFile": true, "os.ReadDir": true, "(fs.FS).Open": true, "(io/fs.FS).Open": true}
